@@ -1,6 +1,13 @@
 /-
-  Generic lifting of a unary row invariant through every API call, `step` and `run`:
-  if every row-level write function establishes `P` for the row it stores, every reachable state satisfies `P`.
+  Generic lifting of invariants through every API call, `step` and `run`.
+
+  `StepInvariant I`: `I` is preserved by each primitive transition (a single-row transaction of any row function
+  of the family, a WithMeta write, a purge, the expiry sweep, arming the timer, clock changes, feed bookkeeping).
+  Then `I` is preserved by every `step` — including the compound read-modify-write loops, which are sequences of
+  single-row transactions — and hence holds in every reachable state (`run_inv`).
+
+  `RowInvariant P` (every row-level write function establishes `P` for the row it stores) yields
+  `StepInvariant (StateAll P)`.
 -/
 import Rosmar.Proofs.Lemmas
 namespace Rosmar
@@ -10,51 +17,27 @@ def Op.WF : Op → Prop
   | .wmeta _ _ _ _ _ _ body _ d => d = body.isNone
   | _ => True
 
-/-- A unary row invariant: every row-level write function establishes it for the row it stores. -/
-structure RowInvariant (P : Row → Prop) : Prop where
-  add : ∀ k exp v j, (addRow k exp v j).Establishes P
-  set : ∀ k exp pe v j, (setRow k exp pe v j).Establishes P
-  incr : ∀ k amt d exp, (incrRow k amt d exp).Establishes P
-  wcas : ∀ k exp cas v o, (wcasRow k exp cas v o).Establishes P
-  remove : ∀ k ifCas, (removeRow k ifCas).Establishes P
-  touch : ∀ exp, (touchRow exp).Establishes P
-  wwx : ∀ k val edits ifCas exp o m, (wwxRow k val edits ifCas exp o m).Establishes P
-  delx : ∀ k names, (delxRow k names).Establishes P
-  dsp : ∀ k names, (dspRow k names).Establishes P
-  wmeta : ∀ k old new exp xs body j d, d = body.isNone → (wmetaRow k old new exp xs body j d).Establishes P
-
-/-! ### Lifting to the API calls, `step` and `run` -/
-
-section
-variable {P : Row → Prop} (hP : RowInvariant P)
-include hP
-
-
-omit hP in
-theorem opWithNewCas_row (s : State) (c k : String) (f : RowFn) (hf : f.Establishes P) (hs : StateAll P s) :
-    StateAll P (withNewCas s c (liftRow k f)).1 :=
-  withNewCas_stateAll (liftRow_preserves hf k) s c hs
+structure StepInvariant (I : State → Prop) : Prop where
+  txn : Family (fun k f => ∀ s c, I s → I (withNewCas s c (liftRow k f)).1)
+  wmeta : ∀ s c k old new exp xs body j d, d = body.isNone → I s → I (opWriteWithMeta s c k old new exp xs body j d).1
+  purge : ∀ s, I s → I (opPurge s).1
+  arm : ∀ s e, I s → I { s with expNext := schedAtOrBefore s.expNext e }
+  fire : ∀ s, I s → I (opFireExpiry s)
+  clock : ∀ s t, I s → I { s with phys := t }
+  now : ∀ s n, I s → I { s with now := n }
+  feeds : ∀ s fs, I s → I { s with feeds := fs }
 
 /-- Every row function a shape can run satisfies `Q`. -/
-def OpShape.All (Q : RowFn → Prop) : OpShape → Prop
+def OpShape.All (Q : String → RowFn → Prop) : OpShape → Prop
   | .rejected _ => True
-  | .row _ _ f => Q f
+  | .row _ k f => Q k f
 
-omit hP in
-theorem runShape_inv (s : State) (sh : OpShape) (h : sh.All (RowFn.Establishes P)) (hs : StateAll P s) :
-    StateAll P (runShape s sh).1 := by
-  cases sh with
-  | rejected e => exact hs
-  | row c k f => exact opWithNewCas_row s c k f h hs
-
-omit hP in
-theorem wwxShape_all {Q : RowFn → Prop} (hQ : ∀ k val edits ifCas exp o m, Q (wwxRow k val edits ifCas exp o m))
+theorem wwxShape_all {Q : String → RowFn → Prop} (hQ : Family Q)
     (c k : String) (val : ValArg) (edits : List XEdit) (ifCas exp : Option Nat) (o : XOpts) (m : List (String × MacroKind)) :
     (wwxShape c k val edits ifCas exp o m).All Q := by
-  unfold wwxShape; split <;> simp [OpShape.All, hQ]
+  unfold wwxShape; split <;> simp [OpShape.All, hQ.wwx]
 
-omit hP in
-theorem shapeWriteWithXattrs_all {Q : RowFn → Prop} (hQ : ∀ k val edits ifCas exp o m, Q (wwxRow k val edits ifCas exp o m))
+theorem shapeWriteWithXattrs_all {Q : String → RowFn → Prop} (hQ : Family Q)
     (c k : String) (exp cas : Nat) (v : Option String) (sets : List (String × Option String)) (dels : Option (List String))
     (pe : Bool) (m : List (String × MacroKind)) : (shapeWriteWithXattrs c k exp cas v sets dels pe m).All Q := by
   unfold shapeWriteWithXattrs
@@ -65,8 +48,7 @@ theorem shapeWriteWithXattrs_all {Q : RowFn → Prop} (hQ : ∀ k val edits ifCa
   · trivial
   · exact wwxShape_all hQ ..
 
-omit hP in
-theorem shapeWriteTombstoneWithXattrs_all {Q : RowFn → Prop} (hQ : ∀ k val edits ifCas exp o m, Q (wwxRow k val edits ifCas exp o m))
+theorem shapeWriteTombstoneWithXattrs_all {Q : String → RowFn → Prop} (hQ : Family Q)
     (c k : String) (exp cas : Nat) (sets : List (String × Option String)) (dels : Option (List String))
     (db : Bool) (m : List (String × MacroKind)) : (shapeWriteTombstoneWithXattrs c k exp cas sets dels db m).All Q := by
   unfold shapeWriteTombstoneWithXattrs
@@ -77,8 +59,7 @@ theorem shapeWriteTombstoneWithXattrs_all {Q : RowFn → Prop} (hQ : ∀ k val e
   · trivial
   · exact wwxShape_all hQ ..
 
-omit hP in
-theorem shapeWriteResurrectionWithXattrs_all {Q : RowFn → Prop} (hQ : ∀ k val edits ifCas exp o m, Q (wwxRow k val edits ifCas exp o m))
+theorem shapeWriteResurrectionWithXattrs_all {Q : String → RowFn → Prop} (hQ : Family Q)
     (c k : String) (exp : Nat) (v : Option String) (sets : List (String × Option String))
     (pe : Bool) (m : List (String × MacroKind)) : (shapeWriteResurrectionWithXattrs c k exp v sets pe m).All Q := by
   unfold shapeWriteResurrectionWithXattrs
@@ -88,8 +69,7 @@ theorem shapeWriteResurrectionWithXattrs_all {Q : RowFn → Prop} (hQ : ∀ k va
     · trivial
     · exact wwxShape_all hQ ..
 
-omit hP in
-theorem shapeUpdateXattrs_all {Q : RowFn → Prop} (hQ : ∀ k val edits ifCas exp o m, Q (wwxRow k val edits ifCas exp o m))
+theorem shapeUpdateXattrs_all {Q : String → RowFn → Prop} (hQ : Family Q)
     (c k : String) (exp cas : Nat) (sets : List (String × Option String)) (m : List (String × MacroKind)) :
     (shapeUpdateXattrs c k exp cas sets m).All Q := by
   unfold shapeUpdateXattrs
@@ -97,30 +77,39 @@ theorem shapeUpdateXattrs_all {Q : RowFn → Prop} (hQ : ∀ k val edits ifCas e
   · trivial
   · exact wwxShape_all hQ ..
 
-theorem writeWithXattrs_inv (s : State) (c k : String) (val : ValArg) (edits : List XEdit) (ifCas exp : Option Nat) (o : XOpts)
-    (m : List (String × MacroKind)) (hs : StateAll P s) : StateAll P (writeWithXattrs s c k val edits ifCas exp o m).1 :=
-  runShape_inv s _ (wwxShape_all hP.wwx ..) hs
+section
+variable {I : State → Prop} (hI : StepInvariant I)
+include hI
+
+theorem runShape_inv (s : State) (sh : OpShape)
+    (h : sh.All (fun k f => ∀ s c, I s → I (withNewCas s c (liftRow k f)).1)) (hs : I s) : I (runShape s sh).1 := by
+  cases sh with
+  | rejected e => exact hs
+  | row c k f => exact h s c hs
+
+theorem opWriteCas_inv (s : State) (c k : String) (exp cas : Nat) (v : Option String) (o : WOpts) (hs : I s) :
+    I (opWriteCas s c k exp cas v o).1 := hI.txn.wcas k exp cas v o s c hs
 
 theorem opWriteWithXattrs_inv (s : State) (c k : String) (exp cas : Nat) (v : Option String) (sets : Sets) (dels : Option (List String))
-    (pe : Bool) (m : Macros) (hs : StateAll P s) : StateAll P (opWriteWithXattrs s c k exp cas v sets dels pe m).1 :=
-  runShape_inv s _ (shapeWriteWithXattrs_all hP.wwx ..) hs
+    (pe : Bool) (m : Macros) (hs : I s) : I (opWriteWithXattrs s c k exp cas v sets dels pe m).1 :=
+  runShape_inv hI s _ (shapeWriteWithXattrs_all hI.txn ..) hs
 
 theorem opWriteTombstoneWithXattrs_inv (s : State) (c k : String) (exp cas : Nat) (sets : Sets) (dels : Option (List String))
-    (db : Bool) (m : Macros) (hs : StateAll P s) : StateAll P (opWriteTombstoneWithXattrs s c k exp cas sets dels db m).1 :=
-  runShape_inv s _ (shapeWriteTombstoneWithXattrs_all hP.wwx ..) hs
+    (db : Bool) (m : Macros) (hs : I s) : I (opWriteTombstoneWithXattrs s c k exp cas sets dels db m).1 :=
+  runShape_inv hI s _ (shapeWriteTombstoneWithXattrs_all hI.txn ..) hs
 
 theorem opWriteResurrectionWithXattrs_inv (s : State) (c k : String) (exp : Nat) (v : Option String) (sets : Sets)
-    (pe : Bool) (m : Macros) (hs : StateAll P s) : StateAll P (opWriteResurrectionWithXattrs s c k exp v sets pe m).1 :=
-  runShape_inv s _ (shapeWriteResurrectionWithXattrs_all hP.wwx ..) hs
+    (pe : Bool) (m : Macros) (hs : I s) : I (opWriteResurrectionWithXattrs s c k exp v sets pe m).1 :=
+  runShape_inv hI s _ (shapeWriteResurrectionWithXattrs_all hI.txn ..) hs
 
 theorem opUpdate_inv (fuel : Nat) : ∀ (s : State) (c k : String) (exp : Nat) (steps : List UpdStep) (calls : Nat) (seen : List String),
-    StateAll P s → StateAll P (opUpdate fuel s c k exp steps calls seen).1 := by
+    I s → I (opUpdate fuel s c k exp steps calls seen).1 := by
   induction fuel with
   | zero => intro s c k exp steps calls seen hs; simpa [opUpdate] using hs
   | succ n ih =>
     intro s c k exp steps calls seen hs
-    have hw : ∀ (v : Option String) (e cas : Nat), StateAll P (opWriteCas s c k e cas v {}).1 :=
-      fun v e cas => opWithNewCas_row s c k _ (hP.wcas k e cas v {}) hs
+    have hw : ∀ (v : Option String) (e cas : Nat), I (opWriteCas s c k e cas v {}).1 :=
+      fun v e cas => opWriteCas_inv hI s c k e cas v {} hs
     unfold opUpdate
     simp only
     repeat' (first
@@ -131,7 +120,7 @@ theorem opUpdate_inv (fuel : Nat) : ∀ (s : State) (c k : String) (exp : Nat) (
 
 theorem opWuwx_inv (fuel : Nat) : ∀ (s : State) (c k : String) (names : List String) (steps : List WuStep) (sets : Sets)
     (dels : Option (List String)) (m : Macros) (cbExp : Option Nat) (pe : Bool) (am : Macros) (calls : Nat) (seen : List String),
-    StateAll P s → StateAll P (opWuwx fuel s c k names steps sets dels m cbExp pe am calls seen).1 := by
+    I s → I (opWuwx fuel s c k names steps sets dels m cbExp pe am calls seen).1 := by
   induction fuel with
   | zero => intro s c k names steps sets dels m cbExp pe am calls seen hs; simpa [opWuwx] using hs
   | succ n ih =>
@@ -140,31 +129,92 @@ theorem opWuwx_inv (fuel : Nat) : ∀ (s : State) (c k : String) (names : List S
     simp only
     repeat' (first
       | exact hs
-      | exact opWriteTombstoneWithXattrs_inv hP _ _ _ _ _ _ _ _ _ hs
-      | exact opWriteResurrectionWithXattrs_inv hP _ _ _ _ _ _ _ _ hs
-      | exact opWriteWithXattrs_inv hP _ _ _ _ _ _ _ _ _ _ hs
+      | exact opWriteTombstoneWithXattrs_inv hI _ _ _ _ _ _ _ _ _ hs
+      | exact opWriteResurrectionWithXattrs_inv hI _ _ _ _ _ _ _ _ hs
+      | exact opWriteWithXattrs_inv hI _ _ _ _ _ _ _ _ _ _ hs
       | (apply ih; first
           | exact hs
-          | exact opWriteTombstoneWithXattrs_inv hP _ _ _ _ _ _ _ _ _ hs
-          | exact opWriteResurrectionWithXattrs_inv hP _ _ _ _ _ _ _ _ hs
-          | exact opWriteWithXattrs_inv hP _ _ _ _ _ _ _ _ _ _ hs)
+          | exact opWriteTombstoneWithXattrs_inv hI _ _ _ _ _ _ _ _ _ hs
+          | exact opWriteResurrectionWithXattrs_inv hI _ _ _ _ _ _ _ _ hs
+          | exact opWriteWithXattrs_inv hI _ _ _ _ _ _ _ _ _ _ hs)
       | split)
 
-theorem opDelete_inv (s : State) (c k : String) (hs : StateAll P s) : StateAll P (opDelete s c k).1 :=
-  opWithNewCas_row s c k _ (hP.remove k none) hs
+theorem opTouch_inv (s : State) (c k : String) (exp : Nat) (hs : I s) : I (opTouch s c k exp).1 := by
+  unfold opTouch armOnSuccess
+  have h : I (withNewCas s c (touchFn k exp)).1 := hI.txn.touch k exp s c hs
+  split
+  · exact hI.arm _ _ h
+  · exact h
 
-theorem opFireExpiry_inv (s : State) (hs : StateAll P s) : StateAll P (opFireExpiry s) := by
+/-- One step preserves the invariant. -/
+theorem step_inv (s : State) (op : Op) (hwf : op.WF) (hs : I s) : I (step s op).1 := by
+  cases op with
+  | clock t => exact hI.clock s t hs
+  | now n => exact hI.now s n hs
+  | add c k exp v json => exact hI.txn.add k exp v _ s c hs
+  | set c k exp pe v raw => exact hI.txn.set k exp pe v _ s c hs
+  | wcas c k exp cas v o => exact hI.txn.wcas k exp cas v o s c hs
+  | remove c k cas => exact hI.txn.remove k _ s c hs
+  | delete c k => exact hI.txn.remove k _ s c hs
+  | touch c k exp => exact opTouch_inv hI s c k exp hs
+  | incr c k amt d exp => exact hI.txn.incr k amt d exp s c hs
+  | setx c k sets => exact runShape_inv hI s _ (wwxShape_all hI.txn ..) hs
+  | rmx c k names cas => exact runShape_inv hI s _ (wwxShape_all hI.txn ..) hs
+  | updx c k exp cas sets m => exact runShape_inv hI s _ (shapeUpdateXattrs_all hI.txn ..) hs
+  | wwx c k exp cas v sets dels pe m => exact opWriteWithXattrs_inv hI _ _ _ _ _ _ _ _ _ _ hs
+  | wtx c k exp cas sets dels db m => exact opWriteTombstoneWithXattrs_inv hI _ _ _ _ _ _ _ _ _ hs
+  | wrx c k exp v sets pe m => exact opWriteResurrectionWithXattrs_inv hI _ _ _ _ _ _ _ _ hs
+  | uxdb c k xk exp cas xv m => exact runShape_inv hI s _ (wwxShape_all hI.txn ..) hs
+  | delx c k names => exact hI.txn.delx k names s c hs
+  | dsp c k names => exact hI.txn.dsp k names s c hs
+  | wmeta c k old new exp xs body j d => exact hI.wmeta s c k old new exp xs body j d hwf hs
+  | purge => exact hI.purge s hs
+  | update c k exp steps => exact opUpdate_inv hI _ _ _ _ _ _ _ _ hs
+  | wuwx c k names steps sets dels m cbExp pe => exact opWuwx_inv hI _ _ _ _ _ _ _ _ _ _ _ _ _ _ hs
+  | startFeed id c bf dump ko =>
+    show I (opStartFeed s id c bf dump ko).1
+    unfold opStartFeed
+    split
+    · exact hs
+    · exact hI.feeds s _ hs
+  | drain id =>
+    show I (opDrain s id).1
+    unfold opDrain
+    split
+    · exact hs
+    · exact hI.feeds s _ hs
+  | fire => exact hI.fire s hs
+  | rb c k names => exact hs
+  | lastCas c => exact hs
+  | keys c => exact hs
+  | expState => exact hs
+
+/-- Every state reachable from a state satisfying the invariant satisfies it: induction over any operation list. -/
+theorem run_inv (ops : List Op) : ∀ (s : State), (∀ op ∈ ops, op.WF) → I s → I (run s ops).1 := by
+  induction ops with
+  | nil => intro s _ hs; exact hs
+  | cons op tl ih =>
+    intro s hwf hs
+    simp only [run]
+    exact ih _ (fun o ho => hwf o (List.mem_cons_of_mem _ ho)) (step_inv hI s op (hwf op (List.mem_cons_self)) hs)
+
+end
+
+/-- The expiry sweep is a sequence of `Delete` transactions between two changes of the timer state: an invariant
+    that does not look at the timer state is preserved by it. -/
+theorem fire_of_txn {I : State → Prop} (hdel : ∀ k s c, I s → I (withNewCas s c (liftRow k (removeRow k none))).1)
+    (hexp : ∀ s e, I s → I { s with expNext := e }) (s : State) (hs : I s) : I (opFireExpiry s) := by
   unfold opFireExpiry
   simp only
-  have h0 : StateAll P ({ s with expNext := 0 } : State) := StateAll.of_colls_eq rfl hs
-  have hkeys : ∀ (keys : List String) (c : String) (st : State), StateAll P st →
-      StateAll P (keys.foldl (fun st' k => (opDelete st' c k).1) st) := by
+  have h0 : I ({ s with expNext := 0 } : State) := hexp s 0 hs
+  have hkeys : ∀ (keys : List String) (c : String) (st : State), I st →
+      I (keys.foldl (fun st' k => (opDelete st' c k).1) st) := by
     intro keys c
     induction keys with
     | nil => intro st h; exact h
-    | cons k tl ih => intro st h; exact ih _ (opDelete_inv hP st c k h)
-  have hcolls : ∀ (l : List (String × Coll)) (st : State), StateAll P st →
-      StateAll P (l.foldl (fun st p =>
+    | cons k tl ih => intro st h; exact ih _ (hdel k st c h)
+  have hcolls : ∀ (l : List (String × Coll)) (st : State), I st →
+      I (l.foldl (fun st p =>
         match st.coll? p.1 with
         | none => st
         | some x => (dueKeys x.docs st.now).foldl (fun st' k => (opDelete st' p.1 k).1) st) st) := by
@@ -174,7 +224,7 @@ theorem opFireExpiry_inv (s : State) (hs : StateAll P s) : StateAll P (opFireExp
     | cons p tl ih =>
       intro st h
       apply ih
-      show StateAll P (match st.coll? p.1 with
+      show I (match st.coll? p.1 with
         | none => st
         | some x => (dueKeys x.docs st.now).foldl (fun st' k => (opDelete st' p.1 k).1) st)
       split
@@ -182,19 +232,30 @@ theorem opFireExpiry_inv (s : State) (hs : StateAll P s) : StateAll P (opFireExp
       · exact hkeys _ _ _ h
   have h1 := hcolls (({ s with expNext := 0 } : State).colls.foldr insertCollById []) _ h0
   split
-  · exact StateAll.of_colls_eq rfl h1
+  · exact hexp _ _ h1
   · exact h1
 
-omit hP in
-theorem opPurge_inv (s : State) (hs : StateAll P s) : StateAll P (opPurge s).1 := by
+/-! ### Row invariants -/
+
+/-- A unary row invariant: every row-level write function establishes it for the row it stores. -/
+structure RowInvariant (P : Row → Prop) : Prop where
+  fam : Family (fun _ f => f.Establishes P)
+  wmeta : ∀ k old new exp xs body j d, d = body.isNone → (wmetaRow k old new exp xs body j d).Establishes P
+
+theorem opWithNewCas_row {P : Row → Prop} (s : State) (c k : String) (f : RowFn) (hf : f.Establishes P) (hs : StateAll P s) :
+    StateAll P (withNewCas s c (liftRow k f)).1 :=
+  withNewCas_stateAll (liftRow_preserves hf k) s c hs
+
+theorem opPurge_stateAll {P : Row → Prop} (s : State) (hs : StateAll P s) : StateAll P (opPurge s).1 := by
   intro p hp
   unfold opPurge at hp
   simp only [List.mem_map] at hp
   obtain ⟨q, hq, rfl⟩ := hp
   exact (hs q hq).filter _
 
-theorem opWriteWithMeta_inv (s : State) (c k : String) (old new exp : Nat) (xs : Xattrs) (body : Option String) (j d : Bool)
-    (hwf : d = body.isNone) (hs : StateAll P s) : StateAll P (opWriteWithMeta s c k old new exp xs body j d).1 := by
+theorem opWriteWithMeta_stateAll {P : Row → Prop} (hP : RowInvariant P) (s : State) (c k : String) (old new exp : Nat) (xs : Xattrs)
+    (body : Option String) (j d : Bool) (hwf : d = body.isNone) (hs : StateAll P s) :
+    StateAll P (opWriteWithMeta s c k old new exp xs body j d).1 := by
   unfold opWriteWithMeta
   split
   · exact hs
@@ -210,71 +271,30 @@ theorem opWriteWithMeta_inv (s : State) (c k : String) (old new exp : Nat) (xs :
       · exact StateAll.of_colls_eq rfl h2
       · exact h2
 
-theorem opTouch_inv (s : State) (c k : String) (exp : Nat) (hs : StateAll P s) : StateAll P (opTouch s c k exp).1 := by
-  unfold opTouch armOnSuccess
-  have h : StateAll P (withNewCas s c (touchFn k exp)).1 := opWithNewCas_row s c k _ (hP.touch exp) hs
-  split
-  · exact StateAll.of_colls_eq rfl h
-  · exact h
+/-- A row invariant is a step invariant. -/
+theorem RowInvariant.step {P : Row → Prop} (hP : RowInvariant P) : StepInvariant (StateAll P) where
+  txn :=
+    { add := fun k exp v j s c hs => opWithNewCas_row s c k _ (hP.fam.add k exp v j) hs
+      set := fun k exp pe v j s c hs => opWithNewCas_row s c k _ (hP.fam.set k exp pe v j) hs
+      incr := fun k a d e s c hs => opWithNewCas_row s c k _ (hP.fam.incr k a d e) hs
+      wcas := fun k e cs v o s c hs => opWithNewCas_row s c k _ (hP.fam.wcas k e cs v o) hs
+      remove := fun k ic s c hs => opWithNewCas_row s c k _ (hP.fam.remove k ic) hs
+      touch := fun k e s c hs => opWithNewCas_row s c k _ (hP.fam.touch k e) hs
+      wwx := fun k val ed ic ex o m s c hs => opWithNewCas_row s c k _ (hP.fam.wwx k val ed ic ex o m) hs
+      delx := fun k n s c hs => opWithNewCas_row s c k _ (hP.fam.delx k n) hs
+      dsp := fun k n s c hs => opWithNewCas_row s c k _ (hP.fam.dsp k n) hs }
+  wmeta := fun s c k old new exp xs body j d hwf hs => opWriteWithMeta_stateAll hP s c k old new exp xs body j d hwf hs
+  purge := opPurge_stateAll
+  arm := fun s e hs => StateAll.of_colls_eq rfl hs
+  fire := fun s hs => fire_of_txn (fun k s c hs => opWithNewCas_row s c k _ (hP.fam.remove k none) hs)
+    (fun s e hs => StateAll.of_colls_eq rfl hs) s hs
+  clock := fun s t hs => StateAll.of_colls_eq rfl hs
+  now := fun s n hs => StateAll.of_colls_eq rfl hs
+  feeds := fun s fs hs => StateAll.of_colls_eq rfl hs
 
-/-- One step preserves tombstone coherence. -/
-theorem step_inv (s : State) (op : Op) (hwf : op.WF) (hs : StateAll P s) : StateAll P (step s op).1 := by
-  cases op with
-  | clock t => exact StateAll.of_colls_eq rfl hs
-  | now n => exact StateAll.of_colls_eq rfl hs
-  | add c k exp v json => exact opWithNewCas_row s c k _ (hP.add k exp v _) hs
-  | set c k exp pe v raw => exact opWithNewCas_row s c k _ (hP.set k exp pe v _) hs
-  | wcas c k exp cas v o => exact opWithNewCas_row s c k _ (hP.wcas k exp cas v o) hs
-  | remove c k cas => exact opWithNewCas_row s c k _ (hP.remove k _) hs
-  | delete c k => exact opDelete_inv hP s c k hs
-  | touch c k exp => exact opTouch_inv hP s c k exp hs
-  | incr c k amt d exp => exact opWithNewCas_row s c k _ (hP.incr k amt d exp) hs
-  | setx c k sets => exact runShape_inv s _ (wwxShape_all hP.wwx ..) hs
-  | rmx c k names cas => exact runShape_inv s _ (wwxShape_all hP.wwx ..) hs
-  | updx c k exp cas sets m => exact runShape_inv s _ (shapeUpdateXattrs_all hP.wwx ..) hs
-  | wwx c k exp cas v sets dels pe m => exact opWriteWithXattrs_inv hP _ _ _ _ _ _ _ _ _ _ hs
-  | wtx c k exp cas sets dels db m => exact opWriteTombstoneWithXattrs_inv hP _ _ _ _ _ _ _ _ _ hs
-  | wrx c k exp v sets pe m => exact opWriteResurrectionWithXattrs_inv hP _ _ _ _ _ _ _ _ hs
-  | uxdb c k xk exp cas xv m => exact runShape_inv s _ (wwxShape_all hP.wwx ..) hs
-  | delx c k names => exact opWithNewCas_row s c k _ (hP.delx k names) hs
-  | dsp c k names => exact opWithNewCas_row s c k _ (hP.dsp k names) hs
-  | wmeta c k old new exp xs body j d => exact opWriteWithMeta_inv hP s c k old new exp xs body j d hwf hs
-  | purge => exact opPurge_inv s hs
-  | update c k exp steps => exact opUpdate_inv hP _ _ _ _ _ _ _ _ hs
-  | wuwx c k names steps sets dels m cbExp pe => exact opWuwx_inv hP _ _ _ _ _ _ _ _ _ _ _ _ _ _ hs
-  | startFeed id c bf dump ko =>
-    show StateAll P (opStartFeed s id c bf dump ko).1
-    unfold opStartFeed
-    split
-    · exact hs
-    · exact StateAll.of_colls_eq rfl hs
-  | drain id =>
-    show StateAll P (opDrain s id).1
-    unfold opDrain
-    split
-    · exact hs
-    · exact StateAll.of_colls_eq rfl hs
-  | fire => exact opFireExpiry_inv hP s hs
-  | rb c k names => exact hs
-  | lastCas c => exact hs
-  | keys c => exact hs
-  | expState => exact hs
-
-/-- Every reachable state is coherent: induction over any operation list. -/
-theorem run_inv (ops : List Op) : ∀ (s : State), (∀ op ∈ ops, op.WF) → StateAll P s → StateAll P (run s ops).1 := by
-  induction ops with
-  | nil => intro s _ hs; exact hs
-  | cons op tl ih =>
-    intro s hwf hs
-    simp only [run]
-    exact ih _ (fun o ho => hwf o (List.mem_cons_of_mem _ ho)) (step_inv hP s op (hwf op (List.mem_cons_self)) hs)
-
-omit hP in
-theorem initState_inv (P : Row → Prop) : StateAll P initState := by
+theorem initState_stateAll (P : Row → Prop) : StateAll P initState := by
   intro p hp
   simp [initState] at hp
   rcases hp with rfl | rfl | rfl <;> exact DocsAll.nil _
-
-end
 
 end Rosmar
